@@ -8,6 +8,7 @@
 import PS.Proofs.Dfta
 import PS.Proofs.DftaUnion
 import PS.Proofs.DftaQuot
+import PS.Proofs.DftaMin
 namespace PS.C07
 open PS DFTA
 
@@ -113,6 +114,66 @@ theorem C07_min_lang_cert (f : List Q → X) (A : DFTA σ Q) (hd : A.Det) (cls0 
   intro hc t
   rw [e]
   exact accepts_quotient A hd _ _ (allStates_subset_stateSet A) hc t
+
+/-! ### literal for the non-vacuity examples of the `minimise` theorems
+  trees over {a/0, b/0, f/2}; a partial table with a binary letter; states 2 and 3 are
+  equivalent, 0 and 1 are not (f(0,1) is defined, f(1,1) is not). -/
+namespace MinExample
+def par : DFTA String Nat :=
+  { rules := [(("a", []), 0), (("b", []), 1), (("f", [0, 1]), 2), (("f", [1, 0]), 3),
+              (("f", [2, 2]), 0), (("f", [2, 3]), 0), (("f", [3, 2]), 0), (("f", [3, 3]), 0)],
+    finals := [2, 3] }
+/-- a three-state automaton for the same language -/
+def par3 : DFTA String Nat :=
+  { rules := [(("a", []), 0), (("b", []), 1), (("f", [0, 1]), 2), (("f", [1, 0]), 2),
+              (("f", [2, 2]), 0)], finals := [2] }
+end MinExample
+
+/-- **minimise, the certificate always holds.** The partition the refinement loop ends with
+    (for every order of the two initial classes and every number of passes after which it
+    returns) passes the executable congruence certificate, for every injective naming `f` of
+    the classes — provided every state the automaton mentions is reachable (`AllReach`, the
+    part of "reduced" the code needs: without it the Python raises `KeyError`). -/
+theorem C07_min_cert (f : List Q → X) (hf : ∀ a b, f a = f b → a = b) (A : DFTA σ Q) (hd : A.Det)
+    (hr : AllReach A) (cls0 cls1 : List Q) (h01 : InitOK A cls0 cls1) (fuel : Nat) (st : MinState Q)
+    (h : minimiseState A cls0 cls1 fuel = some st) :
+    congruenceCert A (fun q => f (clsTuple st q)) (stateSet A) = true :=
+  minimiseState_cert A hd hr cls0 cls1 h01 fuel st h f hf
+
+/-- **minimise, language** (general form: every order of the two initial classes, every
+    injective `mapping`, every number of passes after which the loop returns). -/
+theorem C07_min_lang_core (f : List Q → X) (hf : ∀ a b, f a = f b → a = b) (A : DFTA σ Q)
+    (hd : A.Det) (hr : AllReach A) (cls0 cls1 : List Q) (h01 : InitOK A cls0 cls1) (fuel : Nat)
+    (M : DFTA σ X) (h : minimiseCore f A cls0 cls1 fuel = some M) (t : Tree σ) :
+    M.accepts t = A.accepts t :=
+  minimiseCore_lang f hf A hd hr cls0 cls1 h01 fuel M h t
+
+/-- **minimise, language.** Minimising a deterministic automaton all of whose states are
+    reachable (in particular a reduced one, `C07_reduce_allReach`) leaves its language
+    unchanged. -/
+theorem C07_min_lang (A : DFTA σ Q) (hd : A.Det) (hr : AllReach A) (M : DFTA σ (List Q))
+    (h : minimise A = some M) (t : Tree σ) : M.accepts t = A.accepts t :=
+  minimiseCore_lang id (fun _ _ e => e) A hd hr _ _ (initOK_filter A) _ M h t
+
+example : MinExample.par.Det ∧ AllReach MinExample.par ∧
+    (minimise MinExample.par).map (fun M => M.rules) =
+      some [(("a", []), [0]), (("b", []), [1]), (("f", [[0], [1]]), [2, 3]), (("f", [[1], [0]]), [2, 3]),
+            (("f", [[2, 3], [2, 3]]), [0])] := by
+  unfold DFTA.Det AllReach; decide
+
+/-- **minimise, termination.** The `while not finished` loop ends: every pass but the last
+    creates a class, classes are disjoint non-empty sets of reachable states (but possibly the
+    two initial ones), so `|states| + 1` passes are always enough — the model's `|states| + 2`
+    never runs out, for ANY automaton (no hypothesis), any class order and any `mapping`. -/
+theorem C07_min_terminates_core (f : List Q → X) (A : DFTA σ Q) (cls0 cls1 : List Q)
+    (h01 : InitOK A cls0 cls1) (fuel : Nat) (hfuel : A.states.length + 1 ≤ fuel) :
+    ∃ M, minimiseCore f A cls0 cls1 fuel = some M :=
+  minimiseCore_terminates f A cls0 cls1 h01 fuel hfuel
+
+theorem C07_min_terminates (A : DFTA σ Q) : ∃ M, minimise A = some M :=
+  minimiseCore_terminates id A _ _ (initOK_filter A) _ (by omega)
+
+example : ∃ M, minimise MinExample.par = some M ∧ numStates M = 3 := ⟨_, rfl, by decide⟩
 
 /-! ### non-vacuity: cyclic automata over {z/0, s/1, f/2} -/
 namespace Example
